@@ -4,6 +4,7 @@ from ofxtools import Client, config, utils
 from ofxtools.Client import OFXClient
 from sx import rt
 from harness.envstubs import FakeFS, FakePath, FakeResponse, TRUNCATED
+from sx.instrument import optimized_copy
 
 PID = "C15"
 BEHAVIOURS = ["profile", "uptodate", "error_status", "garbage", "transport_error"]
@@ -55,15 +56,17 @@ def fake_bytesio(x=b""):
     return FakeResponse(x, None, "cached")
 
 
-def setup(ctx, log, org="O", fid="F", url="http://s1"):
+def setup(ctx, log, org="O", fid="F", url="http://s1", noassert=False):
+    """noassert: the client module as `python -O` / PYTHONOPTIMIZE loads it (assert statements compiled away)"""
+    C = optimized_copy(Client) if noassert else Client
     fs = FakeFS(log)
     ctx.stub_attr(config, "DATADIR", FakePath(fs, ["data"]))
-    ctx.stub(Client, "open", fs.open)
+    ctx.stub(C, "open", fs.open)
     import os
     ctx.stub(os, "replace", fs.replace)
-    ctx.stub(Client, "OFXTree", FakeTree)
-    ctx.stub(Client, "BytesIO", fake_bytesio)
-    client = OFXClient(url, org=org, fid=fid)
+    ctx.stub(C, "OFXTree", FakeTree)
+    ctx.stub(C, "BytesIO", fake_bytesio)
+    client = C.OFXClient(url, org=org, fid=fid)
     return fs, client
 
 
@@ -102,9 +105,9 @@ def one_call(ctx, client, log, reply):
 
 
 # ---------------------------------------------------------------- one step from an arbitrary valid pre-state
-def h_step(ctx, behaviour):
+def h_step(ctx, behaviour, noassert=False):
     log = []
-    fs, client = setup(ctx, log)
+    fs, client = setup(ctx, log, noassert=noassert)
     key = cache_key("O", "F")
     has_cache = ctx.bool("cache_present")
     d0 = ctx.datetime("d0", 2000, 2030, utils.UTC)          # DTPROFUP of the cached profile
@@ -313,6 +316,7 @@ def instances(tier, seed):
     for b in BEHAVIOURS:
         mk(f"step[{b}]", "step", dict(behaviour=b))
         mk(f"step_unreadable[{b}]", "step_unreadable", dict(behaviour=b))
+        mk(f"step[{b},python -O]", "step", dict(behaviour=b, noassert=True))
     mk("crash", "crash", {})
     mk("interleave", "interleave", {}, max_paths=100000)
     mk("owner", "owner", {})
